@@ -1,4 +1,4 @@
-import Slock.Proofs.Engine2TightRun
+import Slock.Proofs.Engine2Drain
 /-!
 # C17 — everything is reclaimed (lock records, reference counts, KeyCount)
 
@@ -18,10 +18,18 @@ The uint8 / uint32 decrements never wrap (each `refCount--` is preceded by the r
 IS freed), every hold has its expiry-wheel entry, `currentLock` points at a hold, and every key record that is still linked has at
 least one lock record (the key record IS unlinked, and `KeyCount` decremented, together with its last lock record).
 
-`drain` — the reclamation clause: in a reachable state in which no queue of any key record holds an entry and every wheel entry has
-been swept there is NO key record left, `KeyCount` is 0 and no key has a value. Hypothesis gap, stated plainly: the theorem asks for
-empty queues, not merely for "no live hold and no live queued request"; that a queue cannot keep tombstoned entries once its live
-entries are gone is not proved (the monitors `C17:*-after-drain` check the end-to-end statement on the real code after every sequence).
+`drain_live` — the reclamation clause at the property's own hypothesis: from any reachable state in which NOTHING IS HELD OR QUEUED
+(no lock record is a hold or a waiting request), after the sweeps have passed every second a wheel entry is still scheduled for
+(`n` seconds, where every remaining entry is scheduled within the next `n` seconds) there is NO key record left, `KeyCount` is 0 and
+no key has a value. Ingredients, each a theorem about every reachable state: `queues_empty_of_no_live` (`run_dbq`: the tombstoned
+queue entries do not outlive the live ones — `currentLock = nil` ⇒ holder queue empty; a non-empty wait queue contains a live
+request), `nothing_leaks` (a record at count 0 is freed, a key record without records is unlinked; an expiry entry of a record that
+is not a hold is a tombstone), `tick_dead` (a sweep over tombstones only drops: nothing is re-armed, nothing fires, no deferral).
+What is assumed, not proved: that the remaining entries are scheduled in the FUTURE (`now < visit`; `Within`); an entry scheduled
+for a second the sweeper has already passed would never be visited. (Stage 1 proves this for live queued requests, C05 not-late.)
+
+`drain_tombstones` — the same without time: nothing held or queued and no wheel entry ⇒ no key record. `drain` — the earlier form
+(all queues empty and no wheel entry).
 
 `drain_partial` — the weaker earlier form, kept: see the statement below.
 -/
@@ -66,26 +74,24 @@ theorem waiter_has_no_expiry_entry (now aofTime : Nat) (ops : List Op) :
 theorem nothing_leaks (now aofTime : Nat) (ops : List Op) :
     ∀ k ∈ (run (DB.init now aofTime) ops).keys,
       k.recs ≠ [] ∧
-      (∀ r ∈ k.recs, 1 ≤ r.refCount ∧ (0 < r.depth → r.eSched.isSome = true) ∧ (r.expried = true → r.depth = 0)) ∧
+      (∀ r ∈ k.recs, 1 ≤ r.refCount ∧ (0 < r.depth → r.eSched.isSome = true) ∧ (r.expried = true → r.depth = 0) ∧
+        (r.depth = 0 → r.eSched.isSome = true → r.expried = true)) ∧
       (∀ c, k.current = some c → 0 < (k.getR c).depth) := by
   intro k hk
   have h := (run_dbt (DB.init now aofTime) ops (DBT.init now aofTime)).tight k hk
-  exact ⟨h.2.1, fun r hr => by have := h.1 r hr (by simp); exact ⟨this.pos, this.hold, this.ended⟩, h.2.2⟩
+  exact ⟨h.2.1, fun r hr => by have := h.1 r hr (by simp); exact ⟨this.pos, this.hold, this.ended, this.fin⟩, h.2.2⟩
 
-/-- **Drain.** In a reachable state in which no queue of a key record holds an entry any more and every wheel entry has been swept,
-no key record is left, `KeyCount` is 0, and no key has a value. -/
-theorem drain (now aofTime : Nat) (ops : List Op)
-    (hq : ∀ k ∈ (run (DB.init now aofTime) ops).keys, k.current = none ∧ k.locks = [] ∧ k.wait = [])
-    (hw : ∀ k ∈ (run (DB.init now aofTime) ops).keys, ∀ r ∈ k.recs, r.tSched = none ∧ r.eSched = none) :
-    (run (DB.init now aofTime) ops).keys = [] ∧ (run (DB.init now aofTime) ops).keyCount = 0 ∧
-    ∀ n, ((run (DB.init now aofTime) ops).getKey n).cell = none ∧ (run (DB.init now aofTime) ops).hasKey n = false := by
-  have hd := run_dbt (DB.init now aofTime) ops (DBT.init now aofTime)
-  have hnil : (run (DB.init now aofTime) ops).keys = [] := by
-    cases hks : (run (DB.init now aofTime) ops).keys with
+/-- the reclamation clause for any state that satisfies the invariants of the reachable ones -/
+theorem drain_core {db : DB} (hd : DBT db)
+    (hq : ∀ k ∈ db.keys, k.current = none ∧ k.locks = [] ∧ k.wait = [])
+    (hw : ∀ k ∈ db.keys, ∀ r ∈ k.recs, r.tSched = none ∧ r.eSched = none) :
+    db.keys = [] ∧ db.keyCount = 0 ∧ ∀ n, (db.getKey n).cell = none ∧ db.hasKey n = false := by
+  have hnil : db.keys = [] := by
+    cases hks : db.keys with
     | nil => rfl
     | cons k rest =>
       exfalso
-      have hk : k ∈ (run (DB.init now aofTime) ops).keys := by rw [hks]; simp
+      have hk : k ∈ db.keys := by rw [hks]; simp
       have ht := hd.tight k hk
       have hrc := (hd.dbi.ks k hk).rc
       cases hr : k.recs with
@@ -101,9 +107,76 @@ theorem drain (now aofTime : Nat) (ops : List Op)
   have hkc := hd.dbi.kc
   rw [hnil] at hkc
   refine ⟨hnil, hkc, fun n => ?_⟩
-  have hh : (run (DB.init now aofTime) ops).hasKey n = false := by
+  have hh : db.hasKey n = false := by
     rw [hasKey_eq_false_iff, hnil]; intro k hk; simp at hk
   exact ⟨by rw [getKey_of_not_hasKey _ n hh]; rfl, hh⟩
+
+/-- **Drain.** In a reachable state in which no queue of a key record holds an entry any more and every wheel entry has been swept,
+no key record is left, `KeyCount` is 0, and no key has a value. -/
+theorem drain (now aofTime : Nat) (ops : List Op)
+    (hq : ∀ k ∈ (run (DB.init now aofTime) ops).keys, k.current = none ∧ k.locks = [] ∧ k.wait = [])
+    (hw : ∀ k ∈ (run (DB.init now aofTime) ops).keys, ∀ r ∈ k.recs, r.tSched = none ∧ r.eSched = none) :
+    (run (DB.init now aofTime) ops).keys = [] ∧ (run (DB.init now aofTime) ops).keyCount = 0 ∧
+    ∀ n, ((run (DB.init now aofTime) ops).getKey n).cell = none ∧ (run (DB.init now aofTime) ops).hasKey n = false :=
+  drain_core (run_dbt (DB.init now aofTime) ops (DBT.init now aofTime)) hq hw
+
+/-- no tombstone outlives the live entries of its queue: when no lock record of a key is a hold (depth > 0) or a waiting request
+(`timeouted = false`) any more, its three queues are EMPTY (the lazily popped tombstones are gone too) -/
+theorem queues_empty_of_no_live {db : DB} (hd : DBQ db) (hl : ∀ k ∈ db.keys, ∀ r ∈ k.recs, r.depth = 0 ∧ r.timeouted = true) :
+    ∀ k ∈ db.keys, k.current = none ∧ k.locks = [] ∧ k.wait = [] := by
+  intro k hk
+  have ht := hd.dbt.tight k hk
+  have hrc := (hd.dbt.dbi.ks k hk).rc
+  have hq := hd.qi k hk
+  have hcur : k.current = none := by
+    cases hc : k.current with
+    | none => rfl
+    | some c =>
+      exfalso
+      have h1 := ht.2.2 c hc
+      have hh : k.hasRec c := hrc.dang c (by unfold Key.qRefs; simp only [hc, if_true]; omega)
+      have := (hl k hk _ (getR_mem hh)).1
+      omega
+  refine ⟨hcur, hq.cn hcur, ?_⟩
+  cases hw : k.wait with
+  | nil => rfl
+  | cons e rest =>
+    exfalso
+    obtain ⟨e', he', hlive⟩ := hq.wl (by rw [hw]; simp)
+    have hh : k.hasRec e'.rid := hrc.dang e'.rid (by
+      have := qRefs_pos_of_wait_mem k e'.rid (List.mem_map.mpr ⟨e', he', rfl⟩)
+      omega)
+    have := (hl k hk _ (getR_mem hh)).2
+    rw [this] at hlive
+    exact absurd hlive (by simp)
+
+/-- **Drain, tombstones included.** In a reachable state in which no lock record is a hold or a waiting request any more and every
+wheel entry has been swept, no key record is left, `KeyCount` is 0, and no key has a value. -/
+theorem drain_tombstones (now aofTime : Nat) (ops : List Op)
+    (hl : ∀ k ∈ (run (DB.init now aofTime) ops).keys, ∀ r ∈ k.recs, r.depth = 0 ∧ r.timeouted = true)
+    (hw : ∀ k ∈ (run (DB.init now aofTime) ops).keys, ∀ r ∈ k.recs, r.tSched = none ∧ r.eSched = none) :
+    (run (DB.init now aofTime) ops).keys = [] ∧ (run (DB.init now aofTime) ops).keyCount = 0 ∧
+    ∀ n, ((run (DB.init now aofTime) ops).getKey n).cell = none ∧ (run (DB.init now aofTime) ops).hasKey n = false := by
+  have hd := run_dbq (DB.init now aofTime) ops (DBQ.init now aofTime)
+  exact drain_core hd.dbt (queues_empty_of_no_live hd hl) hw
+
+/-- **Drain at the property's own hypothesis.** Take any reachable state in which nothing is held or queued any more (no lock record
+is a hold — depth > 0 — or a waiting request — `timeouted = false`); let `n` be such that every wheel entry still present is
+scheduled for one of the next `n` seconds. After `n` more seconds of server time (and nothing else) there is no key record,
+`KeyCount` is 0 and no key has a value: the tombstoned wheel entries are dropped one by one by the sweeps, each drop decrements its
+record's count, a record is freed at 0, and the key record is unlinked with its last record; the tombstoned queue entries are gone
+already (`queues_empty_of_no_live`). -/
+theorem drain_live (now aofTime : Nat) (ops : List Op) (n : Nat)
+    (hl : Dead (run (DB.init now aofTime) ops))
+    (hv : Within (run (DB.init now aofTime) ops) n) :
+    (run (DB.init now aofTime) (ops ++ List.replicate n .tick)).keys = [] ∧
+    (run (DB.init now aofTime) (ops ++ List.replicate n .tick)).keyCount = 0 ∧
+    ∀ k, ((run (DB.init now aofTime) (ops ++ List.replicate n .tick)).getKey k).cell = none ∧
+         (run (DB.init now aofTime) (ops ++ List.replicate n .tick)).hasKey k = false := by
+  rw [run_append]
+  have hd := run_dbq (DB.init now aofTime) ops (DBQ.init now aofTime)
+  obtain ⟨h1, d1, w1⟩ := ticks_dead n _ hd hl hv
+  exact drain_core h1.dbt (queues_empty_of_no_live h1 d1) w1
 
 /-- **Drain (weaker, earlier form).** In a reachable state in which no queue of a key record holds an entry any more and every wheel
 entry has been swept, every lock record that is still un-freed has reference count 0 and the key record's own count is exactly the
@@ -134,5 +207,9 @@ def opsD : List Op := [.lock { c1 with expried := 2 } none, .unlock { c1 with re
 example : (run (DB.init 100 0xff) opsD).keys.map (fun k => k.recs.map (fun r => (r.refCount, r.eSched.isSome))) = [[(1, true)]] ∧
     (run (DB.init 100 0xff) (opsD ++ [.tick, .tick, .tick, .tick])).keys = [] ∧
     (run (DB.init 100 0xff) (opsD ++ [.tick, .tick, .tick, .tick])).keyCount = 0 := by decide
+
+/-! Non-vacuity of `drain_live`: after lock + unlock nothing is held or queued, the one wheel entry left is scheduled 2 s ahead -/
+example : Dead (run (DB.init 100 0xff) opsD) ∧ Within (run (DB.init 100 0xff) opsD) 2 :=
+  ⟨dead_of_b _ (by decide), within_of_b _ _ (by decide)⟩
 
 end Slock.C17R
